@@ -4,7 +4,7 @@ from hypothesis import strategies as st
 from engines.runtime_worker import run_scenario
 from engines.scenarios import ALL, EXC_NAMES, RETURN_NAMES, events, switchinterval
 from props.c03 import arguments
-from vlib.core import Result, TestDef
+from vlib.core import HarnessError, Result, TestDef
 
 ID = "C10"
 LEVEL = "exploration"
@@ -87,8 +87,7 @@ def scenario(draw):
 def judge(sc, obs) -> Result:
     res = Result()
     if obs.get("worker_error"):
-        res.fail("worker-error", obs["worker_error"])
-        return res
+        raise HarnessError("scenario worker failed: " + str(obs["worker_error"]))
     specs = {p["id"]: p for p in sc["payloads"]}
     ops = [o for o in obs.get("ops", []) if o.get("op") == "execute"]
     if obs.get("hang") or not obs.get("episodes"):
@@ -99,8 +98,7 @@ def judge(sc, obs) -> Result:
     out = obs["episodes"][0]
     for o in obs.get("ops", []):
         if o.get("error"):
-            res.fail("harness-driver-error", f"{o}")
-            return res
+            raise HarnessError(f"driver thread failed: {o}")
     marks = {e[4]["name"]: e[0] for e in events(obs, "mark")}
     t_alive, t_before = marks.get("alive-check"), marks.get("before-shutdown")
     ref = {}
